@@ -61,6 +61,128 @@ def check_exact(ck, fn):
             ck.ok("SPLIT-DEFINITE-INIT", tag, "offsets[s] filled for s < T-1 in the slab loop, offsets[T-1] unconditionally when !tight")
 
 
+def slab_model(fn, lam, sizep):
+    """resolves the arguments of the per-thread multiway_merge_base call to functions of (L, S, P): the slab's own size,
+    the requested size and the slab's output position.  Works for quantities computed inside the worker and for
+    quantities precomputed per slab in vectors indexed by the worker's index."""
+    ctxs = [c for c in (lam, fn) if c is not None]
+    calls = [(c, z) for c in ctxs for z in c.nodes() if "callee" in z and z["callee"]["name"] == "multiway_merge_base"]
+    if len(calls) != 1:
+        return dict(problem="expected exactly one per-thread multiway_merge_base call, found %d" % len(calls))
+    ctx, call = calls[0]
+    a = kids(call)
+    # stores into per-slab vectors in the enclosing function:  vec[j] = expr
+    stores = {}
+    for z in fn.nodes():
+        b = match.binop(z, ("=",)) if z["k"] in ("BinaryOperator", "CXXOperatorCallExpr") else None
+        if b:
+            ip = match.index_parts(b[1])
+            if ip and ir.ref_of(ip[0]) is not None and "vector" in (strip_casts(ip[0]).get("ty") or ""):
+                stores.setdefault(ir.ref_of(ip[0]), []).append((b[2], z))
+
+    def accum_kind(c, did):
+        """'P' for v += chunks[i][s].first - seqs[s].first, 'L' for v += chunks[i][s].second - chunks[i][s].first"""
+        kinds = set()
+        for z in c.nodes():
+            if z["k"] == "CompoundAssignOperator" and z.get("op") == "+=" and ref_of(kids(z)[0]) == did:
+                d = match.binop(kids(z)[1], ("-",))
+                if not d:
+                    return None
+                l, r = match.field_of(d[1]), match.field_of(d[2])
+                if l and r and l[1] == "first" and r[1] == "first":
+                    kinds.add("P")
+                elif l and r and l[1] == "second" and r[1] == "first":
+                    kinds.add("L")
+                else:
+                    return None
+        return kinds.pop() if len(kinds) == 1 else None
+
+    def build(e, c, depth=0):
+        """expression -> python function of (L, S, P) or None"""
+        e = match.strip_conv(e)
+        if depth > 8 or e is None:
+            return None
+        v = const_int(e)
+        if v is not None:
+            return lambda L, S, P, v=v: v
+        if e["k"] == "ParenExpr":
+            return build(kids(e)[0], c, depth + 1)
+        if ref_of(e) == sizep:
+            return lambda L, S, P: S
+        d = ref_of(e)
+        if d is not None:
+            k = accum_kind(c, d) or (accum_kind(fn, d) if c is not fn else None)
+            if k == "P":
+                return lambda L, S, P: P
+            if k == "L":
+                return lambda L, S, P: L
+            for cc in (c, fn):
+                for z in cc.nodes():
+                    if z["k"] == "VarDecl" and z.get("did") == d and kids(z) and kids(z)[0] is not None:
+                        return build(kids(z)[0], cc, depth + 1)
+            return None
+        ip = match.index_parts(e)
+        if ip and ref_of(ip[0]) in stores and len(stores[ref_of(ip[0])]) == 1:
+            return build(stores[ref_of(ip[0])][0][0], fn, depth + 1)
+        if "callee" in e and e["callee"]["name"] in ("min", "max") and len(kids(e)) == 2:
+            f, g = build(kids(e)[0], c, depth + 1), build(kids(e)[1], c, depth + 1)
+            if f is None or g is None:
+                return None
+            op = min if e["callee"]["name"] == "min" else max
+            return lambda L, S, P: op(f(L, S, P), g(L, S, P))
+        b = match.binop(e, ("-", "+"))
+        if b:
+            f, g = build(b[1], c, depth + 1), build(b[2], c, depth + 1)
+            if f is None or g is None:
+                return None
+            if b[0] == "-":
+                return lambda L, S, P: f(L, S, P) - g(L, S, P)
+            return lambda L, S, P: f(L, S, P) + g(L, S, P)
+        return None
+    # destination: target + position
+    tb = match.binop(a[2], ("+",))
+    pos = build(tb[2], ctx) if tb and ir.ref_name(tb[1]) == "target" else None
+    if pos is None or any(pos(L, S, P) != P for L in (0, 2) for S in (0, 5) for P in (0, 3, 7)):
+        return dict(problem="the worker does not write to target + (sum over the sequences of chunk begin - sequence begin): %s" % dtable.describe(a[2])[:80])
+    length = build(a[3], ctx)
+    if length is None:
+        return dict(problem="the length handed to the per-thread merge is not understood: %s" % dtable.describe(a[3])[:80])
+    # the chunk row merged is the worker's own
+    rows = [match.index_parts(kids(z)[0]) for z in ir.walk(a[0]) if "callee" in z and z["callee"]["name"] in ("begin", "end") and match.index_parts(kids(z)[0])]
+    if not rows or ir.ref_name(rows[0][0]) != "chunks":
+        return dict(problem="the worker does not merge a row of chunks[]")
+    return dict(length=length, call=call, ctx=ctx, stores=stores, length_expr=a[3])
+
+
+def last_active_slab(fn, slab, sizes):
+    """the slab whose cursors are handed back must be one that merged something: a variable that is only ever set to a slab
+    index under a `length > 0` test of that slab"""
+    d = ref_of(slab)
+    if d is None:
+        return False, "which is a fixed slab (%s)" % dtable.describe(slab)
+    assigns = []
+    for z in fn.nodes():
+        b = match.binop(z, ("=",)) if z["k"] == "BinaryOperator" else None
+        if b and ref_of(b[1]) == d:
+            assigns.append(z)
+    if not assigns:
+        return False, "which is never set to the last active slab"
+    for z in assigns:
+        par = fn.parent(z)
+        while par is not None and par["k"] != "IfStmt":
+            par = fn.parent(par)
+        if par is None:
+            return False, "which is set unconditionally"
+        c = match.binop(kids(par)[0], (">", "!=", ">="))
+        if not c or not ((c[0] in (">", "!=") and const_int(c[2]) == 0) or (c[0] == ">=" and const_int(c[2]) == 1)):
+            return False, "which is set under a condition that is not a positive-length test"
+        ip = match.index_parts(c[1])
+        jv = ref_of(match.binop(z, ("=",))[2])
+        if not ip or ref_of(ip[1]) != jv or ref_of(ip[0]) not in (sizes.get("stores") or {}):
+            return False, "whose guard does not test the length of the slab it records"
+    return True, ""
+
+
 def check_base(ck, tu, fn):
     tag = "parallel_multiway_merge_base<%s>" % fn.targs[0]
     sizep = fn.params[3]["did"]
@@ -80,26 +202,9 @@ def check_base(ck, tu, fn):
         ck.ok("ZERO-LENGTH", tag, "size == 0 returns before any split rank is computed")
     else:
         ck.violation("ZERO-LENGTH", fn.qname, tag, "a merge of zero elements from non-empty inputs reaches the splitter, whose ranks are then -1", fn.loc)
-    # ---- ADVANCE-EXACT
-    adv = []
-    for x in fn.nodes():
-        b = match.binop(x, ("=",))
-        if b:
-            f = match.field_of(b[1])
-            f2 = match.field_of(b[2])
-            if f and f[1] == "first" and ir.ref_name(f[0]) is None and f2 and match.index_parts(f2[0]):
-                pp = match.index_parts(f2[0])
-                if match.index_parts(pp[0]) and ir.ref_name(match.index_parts(pp[0])[0]) == "chunks":
-                    adv.append((x, f2[1], dtable.describe(match.index_parts(pp[0])[1])))
-    ck.require(len(adv) == 1, "%s: input advancement not found" % fn.loc)
-    x, member, slab = adv[0]
-    if member != "first" or "num_threads" not in slab:
-        ck.violation("ADVANCE-EXACT", fn.qname, tag, "inputs are advanced to chunks[%s].%s: the end of the last slab, not the position up to which it was merged "
-                     "(with sampling splitting and size < total the inputs appear fully consumed)" % (slab, member), fn.nloc(x))
-    else:
-        ck.ok("ADVANCE-EXACT", tag, "inputs advanced to the merged position of the last slab (chunks[num_threads - 1].first)")
-    # ---- fork/join, worker
+    # ---- slab quantities: where each worker writes, how much, and which slab's cursors are handed back
     lam, idxvar = check_fork_join(ck, tu, fn, tag)
+    sizes = slab_model(fn, lam, sizep)
     if lam is not None:
         writes = []
         for y in lam.nodes():
@@ -110,22 +215,50 @@ def check_base(ck, tu, fn):
                     writes.append(y)
         if writes:
             ck.violation("WORKER-WRITES", fn.qname, tag, "the worker lambda writes shared state directly: %s" % dtable.describe(writes[0])[:60], lam.nloc(writes[0]))
+        elif sizes.get("problem"):
+            ck.violation("WORKER-WRITES", fn.qname, tag + ":merge", sizes["problem"], lam.loc)
         else:
-            calls = [c for c in lam.nodes() if "callee" in c and c["callee"]["name"] == "multiway_merge_base"]
-            okw = len(calls) == 1
-            if okw:
-                a = kids(calls[0])
-                tb = match.binop(a[2], ("+",))
-                okw = bool(tb and ir.ref_name(tb[1]) == "target" and ir.ref_name(tb[2]) == "target_position")
-                m = match.call_named(a[3], ("min",))
-                okw = okw and m is not None
-                idx_ok = all(ir.ref_name(match.index_parts(match.strip_conv(kids(z)[0]) if False else kids(z)[0])[1]) == "iam"
-                             for z in ir.walk(a[0]) if "callee" in z and z["callee"]["name"] in ("begin", "end") and match.index_parts(kids(z)[0]))
-                okw = okw and idx_ok
-            if okw:
-                ck.ok("WORKER-WRITES", tag, "the worker only updates locals and merges its own chunk row into target + target_position, limited by size - target_position")
+            ck.ok("WORKER-WRITES", tag, "the worker only updates locals and merges its own chunk row into target + (sum of the slab's offsets)")
+        if not sizes.get("problem"):
+            # the length handed to the per-thread merge, as a function of (local size L, requested size S, slab position P)
+            bad = None
+            for L in range(0, 4):
+                for S in range(0, 7):
+                    for P in range(0, 9):
+                        got = sizes["length"](L, S, P)
+                        want = max(0, min(L, S - P))
+                        if got != want and bad is None:
+                            bad = (L, S, P, got, want)
+            if bad:
+                L, S, P, got, want = bad
+                ck.violation("SLAB-LENGTH", fn.qname, tag, "a slab with %d elements that starts at output position %d merges %d elements for a requested size of %d "
+                             "(it must merge max(0, min(local, size - position)) = %d): with sampling splitting a slab can begin behind `size`, the negative "
+                             "length then writes past the requested range" % (L, P, got, S, want), lam.nloc(sizes["call"]))
             else:
-                ck.violation("WORKER-WRITES", fn.qname, tag + ":merge", "the worker does not merge chunks[iam] to target + target_position with the length limited by size", lam.loc)
+                ck.ok("SLAB-LENGTH", tag, "length = max(0, min(local size, size - position)) on a 4x7x9 grid of (local, size, position)")
+    # ---- ADVANCE-EXACT
+    adv = []
+    for x in fn.nodes():
+        b = match.binop(x, ("=",))
+        if b:
+            f = match.field_of(b[1])
+            f2 = match.field_of(b[2])
+            if f and f[1] == "first" and ir.ref_name(f[0]) is None and f2 and match.index_parts(f2[0]):
+                pp = match.index_parts(f2[0])
+                if match.index_parts(pp[0]) and ir.ref_name(match.index_parts(pp[0])[0]) == "chunks":
+                    adv.append((x, f2[1], match.index_parts(pp[0])[1]))
+    ck.require(len(adv) == 1, "%s: input advancement not found" % fn.loc)
+    x, member, slab = adv[0]
+    slab_ok, why = last_active_slab(fn, slab, sizes)
+    if member != "first":
+        ck.violation("ADVANCE-EXACT", fn.qname, tag, "inputs are advanced to chunks[%s].%s: the end of a slab, not the position up to which it was merged "
+                     "(with sampling splitting and size < total the inputs appear fully consumed)" % (dtable.describe(slab), member), fn.nloc(x))
+    elif not slab_ok:
+        ck.violation("ADVANCE-EXACT", fn.qname, tag + ":slab", "inputs are advanced to the cursors of slab %s, %s: with sampling splitting the trailing slabs can start "
+                     "behind `size` and merge nothing, their cursors are then ahead of the merged position" % (dtable.describe(slab), why), fn.nloc(x))
+    else:
+        ck.ok("ADVANCE-EXACT", tag, "inputs advanced to the .first cursors of the last slab that merged something (%s)" % dtable.describe(slab))
+    if lam is not None:
         # Stable propagation inside the base
         st = fn.targs[0]
         for c in list(fn.nodes()) + list(lam.nodes()):
@@ -167,8 +300,9 @@ def run(ck):
         "filled on every path before they are read (not inside a loop that may run zero times), a zero-length merge returns before ranks are "
         "computed, with size < total the last slab ends at the rank-size partition and the inputs are advanced to the merged position, every "
         "started thread is joined, the worker lambda captures its index by copy and writes only through target + target_position, the Stable "
-        "flag reaches the splitters and the per-thread merges, and the four front ends share one fallback condition. Three genuine defects were "
-        "found in this code (one-thread partial merge, size 0, over-advanced inputs) and fixed.")
+        "flag reaches the splitters and the per-thread merges, and the four front ends share one fallback condition. the per-slab length equals max(0, min(slab size, size - slab position)) "
+        "(with sampling splitting a slab can begin behind size) and the cursors handed back are those of the last slab that merged anything. Four genuine "
+        "defects were found in this code (one-thread partial merge, size 0, over-advanced inputs, negative slab length) and fixed.")
     types = ["int"] if ck.tier == "quick" else ["int", "std::string"]
     for t in types:
         tu = ir.extract("witness/C07_parallel_merge.cpp", defines=["WITNESS_T=" + t], extra_flags=["-include", "string"])
@@ -187,6 +321,7 @@ def run(ck):
     ck.floor("SPLIT-DEFINITE-INIT", 2 * m)
     ck.floor("ZERO-LENGTH", 2 * m)
     ck.floor("ADVANCE-EXACT", 2 * m)
+    ck.floor("SLAB-LENGTH", 2 * m)
     ck.floor("FORK-JOIN", 2 * m)
     ck.floor("INDEX-BY-COPY", 2 * m)
     ck.floor("WORKER-WRITES", 2 * m)
